@@ -62,6 +62,8 @@ def main():
                 if r[0] != 'ret':
                     raise LookupError('ref to failed step')
                 return r[1][i]
+            if '$cat' in a:
+                return ''.join(dec(p, results) for p in a['$cat'])
             if '$slice' in a:
                 k, lo, hi = a['$slice']
                 r = results[k]
